@@ -1171,6 +1171,8 @@ class Frame:
             if n == 'NotEq':
                 return not (l is None and r is None)
             raise SymRaise('TypeError')
+        if (isinstance(l, Opaque) or isinstance(r, Opaque)) and ('cmp:' + (l.cls if isinstance(l, Opaque) else r.cls)) in self.I.world.lib:
+            return self.I.world.lib['cmp:' + (l.cls if isinstance(l, Opaque) else r.cls)](self, n, l, r)
         if isinstance(l, (str, DType, tuple, list)) or isinstance(r, (str, DType, tuple, list)):
             if isinstance(l, (tuple, list)) and isinstance(r, (tuple, list)):
                 if len(l) != len(r):
